@@ -1,5 +1,5 @@
 """C05 - a persistent database reopens to the state it was closed with (DESIGN §5 C05)."""
-from .facts import short_id, CheckerError
+from .facts import must_pass, short_id, CheckerError
 from .flow import FlowCx, find_calls, callee_name, find_aggregates
 from . import common
 
@@ -122,6 +122,36 @@ def run(ctx):
                 ctx.ob("R3", "GrafeoDB::%s#%s-per-iteration" % (name, v), same_loop,
                        what="GrafeoDB::%s calls LpgStore::%s inside a loop but builds the WalRecord::%s outside that loop: only part "
                             "of the entities it creates are logged" % (name, sc, v), where=g.loc(t["line"]))
+        # R3m the pairing is unconditional: on every path that performs the store call the record is logged - before the
+        # call (log-then-apply), or after it on every path to the return - unless the path that skips the record is chosen by
+        # the result of the store call itself (nothing was changed, nothing to log)
+        for (g, bi, t, sc) in self_calls:
+            gx = FlowCx(P, g)
+            for v in sorted(STORE2REC.get(sc) or ()):
+                recs = [bb for (bb, si, rv, ln) in find_aggregates(g, "WalRecord", v)]
+                if not recs:
+                    continue
+                R_ = set(recs)
+                before = must_pass(g, 0, R_, {bi})
+                nxt = g.blocks[bi]["t"].get("t")
+                after = nxt is not None and must_pass(g, nxt, R_, set(g.exits()))
+                scn = short_id(callee_name(t))
+                def from_result(x):
+                    if x[0] == "call":
+                        return x[1] == scn or any(("call:" + scn) in a for a in x[3] if isinstance(a, (set, frozenset)))
+                    sets = [a for a in x[2:4] if isinstance(a, (set, frozenset))]
+                    return any(("call:" + scn) in a for a in sets)
+                on_result = any(from_result(x) for bb in recs for x in gx.facts_at(bb))
+                # one record per element of what was handed to the store call (a property list): the loop over the elements
+                # runs zero times for an empty list, which is the only way past the record
+                per_element = all(bb in g.reachable_blocks(g.blocks[bb]["t"].get("t")) if g.blocks[bb]["t"].get("t") is not None else False for bb in recs) \
+                    and bi not in g.reachable_blocks(recs[0])
+                on_result = on_result or per_element
+                ctx.ob("R3m", "GrafeoDB::%s#%s-with-every-%s" % (name, v, sc), before or after or on_result,
+                       what="GrafeoDB::%s can call LpgStore::%s on a path that does not log the WalRecord::%s (the record is neither built "
+                            "before the call on every path, nor after it on every path, nor skipped on the call's own result): that "
+                            "change is lost at reopen" % (name, sc, v), where=g.loc(t["line"]),
+                       detail={"log_before_call": before, "log_after_call": after, "skipped_on_call_result": on_result})
         for v in sorted(required):
             ok = v in built
             ctx.ob("R3", "GrafeoDB::%s#%s" % (name, v), ok,
